@@ -11,7 +11,7 @@
   "$p<n>"; every message is rendered with all its fields (no trailing omission).
 -/
 import Lean.Data.Json
-import Nexus.L2.Realm
+import Nexus.L2.Router
 
 namespace Driver.L2
 open Lean Nexus Nexus.L2
@@ -162,7 +162,7 @@ def toConfig (j : Json) : Config :=
       | _ => none
     history := (getArr j "history").map fun x => (getStr x "topic", getStr x "match", getNat x "limit") }
 
-def toOp (j : Json) : Except String Realm.Op := do
+def toROp (j : Json) : Except String ROp := do
   let op := getStr j "op"
   let s := getNat j "s"
   match op with
@@ -171,25 +171,40 @@ def toOp (j : Json) : Except String Realm.Op := do
       | .ok d => do let w ← toWVal d; asDictE w
       | _ => pure []
     let roles := match j.getObjVal? "roles" with | .ok r => toRoles r | _ => []
-    pure (.join s (getBool j "local" true) details roles (getNat j "cap" 64))
+    pure (.join (getStr j "realm" "r1") s (getBool j "local" true) details roles (getNat j "cap" 64))
   | "msg" =>
     match j.getObjVal? "m" with
-    | .ok m => do pure (.msg s (← toMsg m))
+    | .ok m => do pure (.sess s (.msg s (← toMsg m)))
     | _ => throw "msg without m"
-  | "drop" => pure (.drop s)
-  | "stall" => pure (.stall s)
-  | "resume" => pure (.resume s)
+  | "drop" => pure (.sess s (.drop s))
+  | "stall" => pure (.sess s (.stall s))
+  | "resume" => pure (.sess s (.resume s))
   | "tick" => pure (.tick (getNat j "ms"))
   | "rnd" => pure (.rnd (getNat j "n"))
+  | "close" => pure .close
+  | "removeRealm" => pure (.removeRealm (getStr j "realm"))
+  | "addRealm" =>
+    match j.getObjVal? "cfg" with
+    | .ok c => pure (.addRealm (toConfig c))
+    | _ => throw "addRealm without cfg"
   | o => throw s!"unknown op {o}"
 
-def render (o : Realm.Observed) : String :=
+def render (o : RObserved) : String :=
   let out := Json.mkObj (o.out.map fun (k, ms) => (toString k, Json.arr (ms.map ofMsg).toArray))
   let closed := Json.arr (o.closed.map (fun k => Json.num (JsonNumber.fromNat k))).toArray
   let p := match o.panic with | some t => Json.str t | none => Json.null
-  (Json.mkObj [("out", out), ("closed", closed), ("panic", p)]).compress
+  (Json.mkObj ([("out", out), ("closed", closed), ("panic", p)] ++
+    (if o.refused then [("note", Json.str "refused")] else []))).compress
 
-partial def loop (h : IO.FS.Stream) (r : Option Realm) : IO Unit := do
+/-- {"cfg": {...}} configures one realm, {"cfg": [{...},...]} several. -/
+def toConfigs (c : Json) : List Config :=
+  match c with
+  | .arr a => a.toList.map toConfig
+  | _ => match c.getObjVal? "realms" with
+    | .ok (.arr a) => a.toList.map toConfig
+    | _ => [toConfig c]
+
+partial def loop (h : IO.FS.Stream) (r : Option Router) : IO Unit := do
   let line ← h.getLine
   if line.isEmpty then return ()
   let line := line.trimRight
@@ -197,19 +212,19 @@ partial def loop (h : IO.FS.Stream) (r : Option Realm) : IO Unit := do
   match Json.parse line with
   | .error e => do IO.println (Json.mkObj [("err", .str s!"parse: {e}")]).compress; loop h r
   | .ok j =>
-    match j.getObjVal? "cfg" with
-    | .ok c =>
-      match Realm.create (toConfig c) with
+    match j.getObjVal? "cfg", j.getObjVal? "op" with
+    | .ok c, .error _ =>
+      match Router.create (toConfigs c) with
       | some r' => do IO.println "{\"ok\":true}"; loop h (some r')
       | none => do IO.println "{\"err\":\"config\"}"; loop h none
-    | .error _ =>
+    | _, _ =>
       match r with
-      | none => do IO.println "{\"err\":\"no realm\"}"; loop h r
+      | none => do IO.println "{\"err\":\"no router\"}"; loop h r
       | some r0 =>
-        match toOp j with
+        match toROp j with
         | .error e => do IO.println (Json.mkObj [("err", .str e)]).compress; loop h r
         | .ok op =>
-          let (obs, r1) := Realm.step r0 op
+          let (obs, r1) := Router.step r0 op
           IO.println (render obs)
           loop h (some r1)
 
